@@ -721,3 +721,147 @@ example : ((Multi.run exCfg exPol init exTrace).log.filter fun o =>
 end Example
 
 end Rdpgw.C07
+
+namespace Rdpgw.C07
+
+open Rdpgw Rdpgw.Tunnel Rdpgw.Multi
+
+/-! ## Projection: a tunnel's traffic phase depends on its own events only -/
+
+/-- traffic events: everything but gateway requests -/
+def Event.isTraffic : Event → Bool
+  | .req .. => false
+  | _ => true
+
+/-- two states look the same from tunnel `j`: same record, same connections feeding its loop -/
+def SameFor (j : Nat) (s s' : St) : Prop :=
+  s.tuns j = s'.tuns j ∧ ∀ c, (s.loop c = some j ↔ s'.loop c = some j)
+
+theorem sameFor_refl (j : Nat) (s : St) : SameFor j s s := ⟨rfl, fun _ => Iff.rfl⟩
+
+/-- a traffic event not addressed to `j` changes neither `j`'s record nor which connections feed it -/
+theorem traffic_other (cfg : Cfg) (pol : Pol) (s : St) (e : Event) (j : Nat)
+    (ht : Event.isTraffic e = true) (hj : target s e ≠ some j) :
+    SameFor j (Multi.step cfg pol s e) s := by
+  refine ⟨step_other cfg pol s e j hj, ?_⟩
+  intro c
+  cases e with
+  | req => simp [Event.isTraffic] at ht
+  | host k b =>
+    simp only [Multi.step]
+    cases s.tuns k with
+    | none => exact Iff.rfl
+    | some t =>
+      simp only
+      split
+      · split <;> exact Iff.rfl
+      · exact Iff.rfl
+  | pkt conn r =>
+    simp only [target] at hj
+    simp only [Multi.step]
+    cases hl : s.loop conn with
+    | none => exact Iff.rfl
+    | some key =>
+      simp only
+      cases hk : s.tuns key with
+      | none => exact Iff.rfl
+      | some t =>
+        simp only
+        have hne : s.loop conn ≠ some j := hj
+        by_cases hc : c = conn
+        · subst hc
+          split
+          · simp [endLoop, hne]
+          · simp [hne]
+        · split
+          · simp [endLoop, hc]
+          · exact Iff.rfl
+  | drop conn =>
+    simp only [target] at hj
+    simp only [Multi.step]
+    cases hl : s.loop conn with
+    | none => exact Iff.rfl
+    | some key =>
+      simp only
+      cases hk : s.tuns key with
+      | none => exact Iff.rfl
+      | some t =>
+        have hne : s.loop conn ≠ some j := hj
+        by_cases hc : c = conn
+        · subst hc; simp [endLoop, hne]
+        · simp [endLoop, hc]
+
+/-- a traffic event addressed to `j` does the same to `j` in any two states that look the same
+    from `j` -/
+theorem traffic_own (cfg : Cfg) (pol : Pol) (s s' : St) (e : Event) (j : Nat)
+    (ht : Event.isTraffic e = true) (hj : target s e = some j) (hs : SameFor j s s') :
+    target s' e = some j ∧ SameFor j (Multi.step cfg pol s e) (Multi.step cfg pol s' e) := by
+  obtain ⟨htun, hloop⟩ := hs
+  cases e with
+  | req => simp [Event.isTraffic] at ht
+  | host k b => simp [target] at hj
+  | pkt conn r =>
+    simp only [target] at hj ⊢
+    have hj' : s'.loop conn = some j := (hloop conn).1 hj
+    refine ⟨hj', ?_⟩
+    simp only [Multi.step, hj, hj']
+    rw [← htun]
+    cases hk : s.tuns j with
+    | none => exact ⟨by simp [htun ▸ hk, hk], hloop⟩
+    | some t =>
+      simp only
+      split
+      · refine ⟨by simp [endLoop], ?_⟩
+        intro c
+        by_cases hc : c = conn
+        · subst hc; simp [endLoop]
+        · simp [endLoop, hc]; exact hloop c
+      · exact ⟨by simp, hloop⟩
+  | drop conn =>
+    simp only [target] at hj ⊢
+    have hj' : s'.loop conn = some j := (hloop conn).1 hj
+    refine ⟨hj', ?_⟩
+    simp only [Multi.step, hj, hj']
+    rw [← htun]
+    cases hk : s.tuns j with
+    | none => exact ⟨by simp [htun ▸ hk, hk], hloop⟩
+    | some t =>
+      refine ⟨by simp [endLoop], ?_⟩
+      intro c
+      by_cases hc : c = conn
+      · subst hc; simp [endLoop]
+      · simp [endLoop, hc]; exact hloop c
+
+/-- the events of a traffic run that are addressed to `j`, in order -/
+def ownEvents (cfg : Cfg) (pol : Pol) (j : Nat) : St → List Event → List Event
+  | _, [] => []
+  | s, e :: es =>
+    if target s e = some j then e :: ownEvents cfg pol j (Multi.step cfg pol s e) es
+    else ownEvents cfg pol j (Multi.step cfg pol s e) es
+
+/-- **Projection.** Over any stretch of traffic (packets, backend bytes, disconnects of any number
+    of tunnels in any interleaving), tunnel `j` ends exactly as if only the events addressed to it
+    had happened, in the same order, with every other tunnel silent. -/
+theorem projection (cfg : Cfg) (pol : Pol) (j : Nat) (es : List Event) (s s' : St)
+    (ht : ∀ e ∈ es, Event.isTraffic e = true) (hs : SameFor j s s') :
+    SameFor j (Multi.run cfg pol s es) (Multi.run cfg pol s' (ownEvents cfg pol j s es)) := by
+  induction es generalizing s s' with
+  | nil => exact hs
+  | cons e es ih =>
+    have hte := ht e (List.mem_cons_self)
+    have htes : ∀ e' ∈ es, Event.isTraffic e' = true := fun e' h => ht e' (List.mem_cons_of_mem _ h)
+    simp only [Multi.run, ownEvents]
+    by_cases hj : target s e = some j
+    · simp only [hj, if_true, Multi.run]
+      exact ih _ _ htes (traffic_own cfg pol s s' e j hte hj hs).2
+    · simp only [hj, if_false]
+      have h1 := traffic_other cfg pol s e j hte hj
+      exact ih _ _ htes ⟨h1.1.trans hs.1, fun c => (h1.2 c).trans (hs.2 c)⟩
+
+/-- the same, from one state: the mix and the tunnel alone agree on the tunnel -/
+theorem projection_alone (cfg : Cfg) (pol : Pol) (j : Nat) (es : List Event) (s : St)
+    (ht : ∀ e ∈ es, Event.isTraffic e = true) :
+    (Multi.run cfg pol s es).tuns j = (Multi.run cfg pol s (ownEvents cfg pol j s es)).tuns j :=
+  (projection cfg pol j es s s ht (sameFor_refl j s)).1
+
+end Rdpgw.C07
